@@ -1,5 +1,5 @@
 # Build of the verification framework (offline).  `make setup` is MANIFEST.setup_cmd.
-.PHONY: all setup coq ocaml clean
+.PHONY: all setup coq ocaml clean coqchk
 
 all: coq ocaml
 
@@ -14,6 +14,10 @@ coq/Makefile.coq: $(wildcard coq/*/*.v) coq/_CoqProject.base
 
 ocaml: coq
 	$(MAKE) -C ocaml
+
+# independent re-check of all compiled property files (thorough tier only; prints the axioms relied on)
+coqchk: coq
+	cd coq && coqchk -silent -o -Q . PV $$(ls Props/*.v | sed 's,Props/\(.*\)\.v,PV.Props.\1,')
 
 clean:
 	-$(MAKE) -C coq -f Makefile.coq cleanall
